@@ -58,6 +58,8 @@ pub struct World {
     pub forbidden: [bool; M],
     /// C16 assertion enabled (std configuration, readiness-tracking combinators only).
     pub c16: bool,
+    /// group member i was removed by the owner (must never be polled again)
+    pub removed: [bool; M],
     /// C17: stream i has an item every time it is polled
     pub always: [bool; M],
     /// a child returning Ready (race) / Err (try_join) / Ok (race_ok) decides the combinator:
@@ -106,6 +108,7 @@ pub const WORLD0: World = World {
     hptr: [core::ptr::null(); M],
     forbidden: [false; M],
     c16: false,
+    removed: [false; M],
     always: [false; M],
     short: 0,
     sequential: false,
@@ -300,6 +303,7 @@ fn on_poll(id: usize, cx: &Context<'_>) {
             j += 1;
         }
     }
+    assert!(!w.removed[id], "C11/C12: member polled after it was removed from its group");
     assert!(w.child_state[id] == 1, "C02: child polled after drop");
     if w.c16 {
         assert!(
